@@ -1,18 +1,10 @@
-"""C16 witnesses.  The recorded findings of C16 (`finding` lines of KNOWN_FINDINGS.txt) are exercised by
-harness/c16.py (finding_witnesses) and registered here under their ids: they are expected to fail while the defect
-is there.  The regression witnesses below — among them the witnesses of the two repaired defects (`fixed:` entries
-a7b547e lcd-bg-no-body, c0beb1f lcd-region-end-zero) — must pass."""
+"""C16 witnesses.  The recorded finding of C16 (lcd-nested-region-conflict, `finding` line of KNOWN_FINDINGS.txt) is exercised by
+harness/c16.py (finding_witnesses) and registered here under its id: it is expected to fail while the defect is there.
+Everything else must pass: the witnesses of the repaired defects (a7b547e lcd-bg-no-body, c0beb1f lcd-region-end-zero,
+d8691ec lcd-position, 5958b0b lcd-position-survives, 2d34128 lcd-preserve-text-align-merge) and the regression witnesses below."""
 import os, re
 from fractions import Fraction
 from witnesses import witness
-
-
-def _listed():
-    p = os.path.join(os.path.dirname(os.path.dirname(os.path.abspath(__file__))), "KNOWN_FINDINGS.txt")
-    try:
-        return set(re.findall(r"(?m)^finding\s+property=C16\s+id=(\S+)", open(p, encoding="utf-8").read()))
-    except OSError:
-        return set()
 
 
 def _mk(fid):
@@ -22,8 +14,27 @@ def _mk(fid):
     return f
 
 
-for _fid in sorted(_listed()):
+for _fid in ("lcd-nested-region-conflict", "lcd-position", "lcd-position-survives", "lcd-preserve-text-align-merge"):
     witness("C16", _fid)(_mk(_fid))
+
+
+@witness("C16", "lcd-config-boundaries")
+def _():
+    """every field of LCDDocFilterConfig through its decoder: safe_area accepts exactly 0..30, colours parse, absent keys = defaults"""
+    import ttconv.style_properties as s
+    from ttconv.filters.doc.lcd import LCDDocFilterConfig
+    ok = []
+    for v in range(-3, 35):
+        try: ok.append(LCDDocFilterConfig.parse({"safe_area": v}).safe_area)
+        except ValueError: pass
+    if ok != list(range(0, 31)): return f"safe_area values accepted: {ok}"
+    c = LCDDocFilterConfig.parse({})
+    if (c.safe_area, c.preserve_text_align, c.color, c.bg_color) != (10, False, None, None): return f"defaults: {c}"
+    c = LCDDocFilterConfig.parse({"safe_area": 30, "preserve_text_align": True, "color": "#01020304", "bg_color": "transparent"})
+    if (c.safe_area, c.preserve_text_align, c.color, c.bg_color) != (30, True, s.ColorType((1, 2, 3, 4)), s.NamedColors.transparent.value): return f"decoded: {c}"
+    try:
+        LCDDocFilterConfig.parse({"color": 5}); return "color=5 accepted"
+    except ValueError: pass
 
 
 def _doc():
